@@ -21,7 +21,7 @@ CHECKS = {
                 note=TB + "The caller supplies a default-configured reader."),
     "C12": dict(cat="other", tech="static analysis: effect-order/dominance rules and symbolic sink values over the binary's MIR", ref="DESIGN.md section 4 C12, section 3 A7",
                 text="Decides everything the property states given std/clap/log semantics: output effects only after both the read and the parse succeeded; sink value = the property's header + library rendering of the parsed root with options derived from --parser/--derive/--sort; file branch writes `{}` only and nothing to stdout; stdout branch prints `{}\\n` and touches no file; conversion tables, value names and defaults; error handler = stderr diagnostic, no stdout, always exit(1). The CLI has no tests at all.",
-                note=TB + "Exit status 0 follows from main returning; env_logger configuration analysed in the thorough tier."),
+                note=TB + "Exit status 0 follows from main returning; the program's own (non-derive) code contains no panic-capable construct (A2 inventory over the binary, R12.9); env_logger configuration analysed in the thorough tier."),
     "C15": dict(lim=True, cat="other", tech="static analysis: shape rules + path-enumerated outcome table of the merge function's MIR", ref="DESIGN.md section 4 C15, section 3 A9",
                 text="For the nested-loop implementation shape: result created empty and append-only; each parameter traversed front to back without adapters and to exhaustion; every path of an iteration (flags and tags tracked) pushes exactly the tag the specification table demands. These facts imply union, exactly-once for duplicate-free inputs, conjunction of necessity and stable order. A rewrite into combinators is reported as shape-not-recognised (documented limitation).",
                 note=TB + "PartialEq of the item type is an equivalence."),
@@ -39,7 +39,7 @@ CHECKS = {
                 text="Near-full for the code's own part: emission groups ordered header, attributes, text, children, closing brace, child structs (pre-order); children sorted by position (Unsorted) or name (XmlName), attributes sorted by name only under XmlName; stored attribute order = first appearance (constructor keeps order, merge(self, new) with the merge's order rules); position written once, guarded, = children.len() before insertion. Not decided: uniqueness of sort keys for hand-built trees.",
                 note=TB + "sort_unstable_by_key, Vec::push and iterators behave as documented."),
     "C10": dict(lim=True, cat="other", tech="static analysis: non-interference by signatures and complete per-field use sets (control/data dependence) in the renderer's MIR", ref="DESIGN.md section 4 C10, section 3 A6",
-                text="Decides the property for the code: only the renderer can see Options (signatures, no shared state); inside it every read of every Options field is classified and must be one of: derive -> is_empty controlling only the derive emission + its display argument; sort -> tests whose alternatives only sort local clones; attribute_prefix -> first argument of the serde-name template used only by the rename guard and rename emission; text_identifier -> the text rename's argument; renames emitted exactly under identifier != bound name; presets/builder are plain constructors.",
+                text="Decides the property for the code: only the renderer can see Options (signatures, no shared state); inside it every read of every Options field is classified and must be one of: derive -> is_empty controlling only the derive emission + its display argument; sort -> tests whose alternatives only sort local clones; attribute_prefix -> first argument of the serde-name template used only by the rename guard and rename emission; text_identifier -> the text rename's argument; renames emitted exactly under identifier != bound name; the bound attribute name is the full name exactly for namespace declarations (predicate = starts with \"xmlns:\" in an enumerated idiom) and remove_namespace(name) otherwise; presets/builder are plain constructors.",
                 note=TB + "Display of String is verbatim."),
     "C11": dict(lim=True, cat="other", tech="static analysis: non-interference by dependence over MIR (value payloads never read, presence-only reads of text, sibling-arm agreement, no reader configuration, no hash order)", ref="DESIGN.md section 4 C11",
                 text="Mostly decided: attribute values never read; text payload flows only into Element.text whose every read is is_some/is_none/discriminant; Text and CData both set the flag, ignored kinds are no-ops; no reader configuration is set or read; Start/Empty arms agree (same tag parser, seen list, demotion in both, demotion order = vector order). Not decided: full observational equivalence of <x/> and <x></x> for every history; buffer-size independence of quick-xml.",
